@@ -74,7 +74,7 @@ class G:
         opts = ['return', 'return']
         if self.loop:
             opts += ['break', 'break']
-        if self.defeat_ok():
+        if self.defeat_ok() and not getattr(self, 'expr_defeat_only', False):
             opts += ['defeat']
         opts += ['win'] if self.i(0, 9) == 0 else []
         k = self.pick(opts)
@@ -100,7 +100,10 @@ class G:
         if self.loop:
             opts += [(9, 'break'), (7, 'continue')]
         if self.defeat_ok():
-            opts += [(6, 'is_defeat'), (6, 'truth'), (6, 'dcall'), (5, 'dcall_expr'), (7, 'preempt')]
+            if getattr(self, 'expr_defeat_only', False):
+                opts += [(16, 'dcall_expr'), (5, 'preempt')]
+            else:
+                opts += [(6, 'is_defeat'), (6, 'truth'), (6, 'dcall'), (7, 'dcall_expr'), (7, 'preempt')]
         if self.flavor == '@' and not self.in_try:
             opts += [(12, 'try')]
         opts += [(2, 'terminal'), (3, 'array')]
@@ -184,8 +187,14 @@ class G:
             return [Preempt(body), self.tag()]
         if k == 'try':
             self.in_try = True
+            # a third of the try bodies reach defeat only through calls embedded in expressions
+            self.expr_defeat_only = self.i(0, 2) == 0
             body = self.block(self.i(1, 3))
-            if self.i(0, 1):
+            if self.expr_defeat_only:
+                self.expr_defeat_only = False
+                if self.i(0, 1):
+                    body.stmts.append(self.ret_stmt())
+            elif self.i(0, 1):
                 body.stmts.append(ExprStmt(Call('!is_defeat', [], t=EMPTY)) if self.i(0, 1) else
                                   ExprStmt(Call('!truth_is_defeat', [self.cond()], t=EMPTY)))
             self.in_try = False
